@@ -33,7 +33,7 @@ Buckets      == ArrayBuckets \cup {"scene", "data"}
 EMPTY        == -1
 
 VARIABLES
-  cfg,     \* configuration: [pipe, times, start, nd, prior, imgdt]
+  cfg,     \* configuration: [pipe, times, start, nd, prior, imgdt, stored (buckets of a saved detector)]
   pc,      \* "new" "rejected" "ready" "begin" "run" "finish" "done" "failed"
   i,       \* index of the current readout step, 0-based
   g, m,    \* group index 1..NG+1, model index inside the group
@@ -104,6 +104,8 @@ Effect(model, b, ck) ==
          [b EXCEPT !["charge"] = Val(b, "charge") + (model.base * Val(b, "photon")) \div 2]
     [] model.kind = "collect" ->                      \* pixel += charge
          [b EXCEPT !["pixel"] = Val(b, "pixel") + Val(b, "charge")]
+    [] model.kind = "loaddet" /\ Active(model, ck.count) ->      \* load-detector model (C18): the running
+         [x \in Buckets |-> cfg.stored[x]]                      \* detector's data become the file's
     [] OTHER -> b
 
 Raises(model, step) == model.kind = "raise" /\ Active(model, step)
